@@ -238,8 +238,12 @@ func fragAbsent(g *Gen, n int, o *Out) {
 				o.finding(Finding{Property: "C05", Kind: "failing-input", What: fmt.Sprintf("absent map key: %s gives %s, documented %s", op, r, absentTable[op]), Request: lastReq(o), Detail: text})
 			}
 			// with an unknown value u: exactly as if the key resolved to u
-			unks := []interface{}{"", "x", 1, 42.5, true, uint8(7), int64(-1)}
+			unks := []interface{}{"", "x", 1, 42.5, true, uint8(7), int64(-1), jsonNumber("1e3"), jsonNumber("16"), jsonNumber("2.50"), jsonNumber("1"),
+				nil, []interface{}{1.0, "x"}, map[string]interface{}{"x": 1.0}, MyStr("x"), []interface{}{}}
 			u := unks[g.r.Intn(len(unks))]
+			if _, isNum := u.(jsonNumber); isNum {
+				m.Raw = []string{"1000", "0x10", "2.5", "1", "16", "1e3", "2.50", "x"}[g.r.Intn(8)]
+			}
 			ru, _, ok2 := evalG(g, o, []OptSpec{{Kind: "unk", Unk: u}}, m, root)
 			parentMap, _ := unwrapIfaceOnly(par.Val).Interface().(map[string]interface{})
 			if ok2 && parentMap != nil {
@@ -474,36 +478,111 @@ func fragUnroll(g *Gen, n int, o *Out) {
 			o.count("capture-skip")
 			continue
 		}
-		rq, tq, okq := evalG(g, o, nil, c, datum)
-		if !okq || rq == "P" {
-			continue
+		var opts []OptSpec
+		switch g.r.Intn(8) {
+		case 0:
+			opts = []OptSpec{{Kind: "hook", Hook: "identity"}}
+		case 1:
+			opts = []OptSpec{{Kind: "hook", Hook: "unwrap"}}
 		}
-		var un GExpr
-		for j := lv.Len() - 1; j >= 0; j-- {
-			pj := subst(c.Inner, valueName, append(append([]string{}, S.Parts...), strconv.Itoa(j)))
-			if un == nil {
-				un = pj
-			} else if c.Op == "any" {
-				un = GOr{pj, un}
-			} else {
-				un = GAnd{pj, un}
+		elems := make([]string, lv.Len())
+		for j := range elems {
+			elems[j] = strconv.Itoa(j)
+		}
+		checkUnroll(g, o, c, valueName, elems, datum, opts)
+	}
+	// elements that a value-transformation hook replaces: the alias must denote what S.i denotes
+	for i := 0; i < n/8+2; i++ {
+		w := func(v interface{}) Wrap { return Wrap{V: v} }
+		pw := func(v interface{}) *Wrap { return &Wrap{V: v} }
+		datum := map[string]interface{}{
+			"ws":   []interface{}{w("db"), pw("web"), w(1), pw([]interface{}{1, "db"}), "db", w(nil)},
+			"pws":  []*Wrap{pw("db"), pw(""), pw(map[string]interface{}{"a": "db"})},
+			"vws":  []Wrap{w("web"), w("db")},
+			"mw":   map[string]Wrap{"a": w("db"), "b": w(2), "c": w([]interface{}{"db"})},
+			"wl":   w([]interface{}{"x", "db"}),
+			"rows": []interface{}{w([]interface{}{1, 2}), w([]interface{}{3})},
+		}
+		colls := []struct {
+			path  []string
+			elems []string
+		}{
+			{[]string{"ws"}, []string{"0", "1", "2", "3", "4", "5"}}, {[]string{"pws"}, []string{"0", "1", "2"}}, {[]string{"vws"}, []string{"0", "1"}},
+			{[]string{"mw"}, []string{"a", "b", "c"}}, {[]string{"wl"}, []string{"0", "1"}}, {[]string{"rows"}, []string{"0", "1"}},
+		}
+		cl := colls[g.r.Intn(len(colls))]
+		bodies := []GExpr{
+			GMatch{Path: []string{"x"}, Op: "eq", Raw: "db", LitStyle: 2},
+			GMatch{Path: []string{"x"}, Op: "ne", Raw: "web", LitStyle: 2},
+			GMatch{Path: []string{"x"}, Op: "notempty"},
+			GMatch{Path: []string{"x"}, Op: "empty"},
+			GMatch{Path: []string{"x"}, Op: "matches", Raw: "^d", LitStyle: 2},
+			GMatch{Path: []string{"x"}, Op: "in", Raw: "db", LitStyle: 2},
+			GMatch{Path: []string{"x", "a"}, Op: "eq", Raw: "db", LitStyle: 2},
+			GMatch{Path: []string{"x", "1"}, Op: "eq", Raw: "db", LitStyle: 2},
+			GColl{Op: "any", Path: []string{"x"}, Mode: "default", Def: "c", Inner: GMatch{Path: []string{"c"}, Op: "eq", Raw: "1"}},
+			GOr{GMatch{Path: []string{"x", "V"}, Op: "eq", Raw: "db", LitStyle: 2}, GMatch{Path: []string{"x"}, Op: "eq", Raw: "db", LitStyle: 2}},
+		}
+		mode := []string{"default", "indexvalue", "value"}[g.r.Intn(3)]
+		if cl.path[0] == "mw" && mode == "default" {
+			mode = "indexvalue" // the one-name form is the key for maps
+		}
+		c := GColl{Op: []string{"any", "all"}[g.r.Intn(2)], Path: cl.path, Mode: mode, Inner: bodies[g.r.Intn(len(bodies))]}
+		switch mode {
+		case "default":
+			c.Def = "x"
+		case "value":
+			c.Val = "x"
+		default:
+			c.Idx, c.Val = "i", "x"
+		}
+		for _, hook := range []string{"unwrap", "identity", "off"} {
+			var opts []OptSpec
+			if hook != "off" {
+				opts = []OptSpec{{Kind: "hook", Hook: hook}}
 			}
+			if cl.path[0] == "wl" && hook != "unwrap" {
+				continue // a list only after unwrapping: without the hook it is a struct, not a collection
+			}
+			if g.r.Intn(4) == 0 {
+				opts = append(opts, OptSpec{Kind: "unk", Unk: "db"})
+			}
+			checkUnroll(g, o, c, "x", cl.elems, datum, opts)
 		}
-		o.count(fmt.Sprintf("len:%d", lv.Len()))
-		want := ""
+	}
+}
+
+// checkUnroll compares a quantifier with its unrolled or/and chain over the given element keys
+// (indices, or map keys in sorted order), both evaluated by the real code under the same options.
+func checkUnroll(g *Gen, o *Out, c GColl, valueName string, elems []string, datum interface{}, opts []OptSpec) {
+	rq, tq, okq := evalG(g, o, opts, c, datum)
+	if !okq || rq == "P" {
+		return
+	}
+	var un GExpr
+	for j := len(elems) - 1; j >= 0; j-- {
+		pj := subst(c.Inner, valueName, append(append([]string{}, c.Path...), elems[j]))
 		if un == nil {
-			want = map[string]string{"any": "F", "all": "T"}[c.Op]
+			un = pj
+		} else if c.Op == "any" {
+			un = GOr{pj, un}
 		} else {
-			ru, tu, oku := evalG(g, o, nil, un, datum)
-			if !oku || ru == "P" {
-				continue
-			}
-			want = norm(ru)
-			_ = tu
+			un = GAnd{pj, un}
 		}
-		if norm(rq) != want {
-			o.finding(Finding{Property: "C06", Kind: "failing-input", What: fmt.Sprintf("%s over a %d-element list gives %s, its unrolling gives %s", c.Op, lv.Len(), rq, want), Request: lastReq(o), Detail: tq})
+	}
+	o.count(fmt.Sprintf("len:%d", len(elems)))
+	want := ""
+	if un == nil {
+		want = map[string]string{"any": "F", "all": "T"}[c.Op]
+	} else {
+		ru, _, oku := evalG(g, o, opts, un, datum)
+		if !oku || ru == "P" {
+			return
 		}
+		want = norm(ru)
+	}
+	if norm(rq) != want {
+		o.finding(Finding{Property: "C06", Kind: "failing-input", What: fmt.Sprintf("%s over a %d-element collection gives %s, its unrolling gives %s (options %s)", c.Op, len(elems), rq, want, wireOpts(opts)), Request: lastReq(o), Detail: tq})
 	}
 }
 
@@ -713,7 +792,9 @@ func hiddenThroughQuantifier(g *Gen, o *Out) {
 // hiddenInEmbedded: hidden / renamed fields of an embedded struct are not reachable by their bare
 // Go name at the enclosing level either.
 func hiddenInEmbedded(g *Gen, o *Out) {
-	mk := func(tok string) Account { return Account{Creds: Creds{Token: tok, APIKey: "k-1", Owner: "alice"}, ID: 1, Ptag: "p"} }
+	mk := func(tok string) Account {
+		return Account{Creds: Creds{Token: tok, APIKey: "k-1", Owner: "alice"}, ID: 1, Ptag: "p"}
+	}
 	for _, tag := range []string{"bexpr", "json"} {
 		var opts []OptSpec
 		if tag != "bexpr" {
@@ -744,10 +825,136 @@ func hiddenInEmbedded(g *Gen, o *Out) {
 	}
 }
 
+// rename collisions: a visible field whose TAG name equals the GO name of a hidden sibling.  Any
+// lookup that forgets the evaluator's tag name (e.g. a secondary "is the parent a map?" lookup with a
+// default configuration) walks into the hidden sibling instead.
+type collVis struct{ Team string }
+type CollideS struct {
+	Labels  collVis     `bexpr:"Meta" json:"x1"`
+	Meta    interface{} `bexpr:"-" json:"x2"`
+	JLabels collVis     `json:"JM" bexpr:"y1"`
+	JM      interface{} `json:"-" bexpr:"y2"`
+}
+type CollideM struct {
+	Labels  map[string]string `bexpr:"Meta" json:"x1"`
+	Meta    interface{}       `bexpr:"-" json:"x2"`
+	JLabels map[string]string `json:"JM" bexpr:"y1"`
+	JM      interface{}       `json:"-" bexpr:"y2"`
+}
+
+func hiddenRenameCollision(g *Gen, o *Out) {
+	hiddenVals := []interface{}{map[string]interface{}{"owner": "root", "Team": "t"}, "x", nil, map[string]int{}, []int{1}, &collVis{Team: "z"}}
+	for _, tag := range []string{"bexpr", "json"} {
+		var opts []OptSpec
+		name := "Meta"
+		if tag != "bexpr" {
+			opts = []OptSpec{{Kind: "tag", Tag: tag}}
+			name = "JM"
+		}
+		mk := func(kind int, hv interface{}) interface{} {
+			if kind == 0 {
+				d := CollideS{Labels: collVis{"a"}, JLabels: collVis{"a"}}
+				if tag == "bexpr" {
+					d.Meta = hv
+				} else {
+					d.JM = hv
+				}
+				return d
+			}
+			d := CollideM{Labels: map[string]string{"Team": "a"}, JLabels: map[string]string{"Team": "a"}}
+			if tag == "bexpr" {
+				d.Meta = hv
+			} else {
+				d.JM = hv
+			}
+			return d
+		}
+		for kind := 0; kind < 2; kind++ {
+			for _, leaf := range []string{"owner", "Team", "zz"} {
+				for _, op := range matchOps {
+					m := GMatch{Path: []string{name, leaf}, Op: op, Raw: []string{"root", "a", ""}[g.r.Intn(3)], LitStyle: 2, Contains: g.r.Intn(2) == 0}
+					text, _, ok := g.renderTop(m)
+					if !ok {
+						continue
+					}
+					first := ""
+					for j, hv := range hiddenVals {
+						r := evalText(o, opts, text, mk(kind, hv))
+						o.count("rename-collision:" + norm(r))
+						if j == 0 {
+							first = r
+						} else if r != first {
+							o.finding(Finding{Property: "C08", Kind: "failing-input", What: fmt.Sprintf("data differing only in a hidden field (whose Go name equals a visible field's tag name) give %s vs %s", first, r), Request: lastReq(o), Detail: text})
+							break
+						}
+					}
+				}
+			}
+			// the same through a filter
+			inner, _, ok := g.renderTop(GMatch{Path: []string{name, "owner"}, Op: "ne", Raw: "root", LitStyle: 2})
+			if ok {
+				firstF := ""
+				for j, hv := range hiddenVals {
+					_, ans := filterCase(inner, []interface{}{mk(kind, hiddenVals[0]), mk(kind, hv)})
+					if strings.HasPrefix(ans, "E") {
+						ans = "E"
+					}
+					if j == 0 {
+						firstF = ans
+					} else if shapeOnly(ans) != shapeOnly(firstF) {
+						o.finding(Finding{Property: "C08", Kind: "failing-input", What: "Filter selection depends on a hidden field behind a rename collision", Detail: inner, Request: "filter " + hx(inner) + " " + serAny([]interface{}{mk(kind, hiddenVals[0]), mk(kind, hv)}) + " ( re )"})
+						break
+					}
+				}
+			}
+		}
+	}
+}
+
+// shapeOnly reduces a filter answer to error / number of kept elements.
+func shapeOnly(ans string) string {
+	if ans == "E" {
+		return ans
+	}
+	return fmt.Sprint(strings.Count(ans, "main.Collide"))
+}
+
+// hiddenZeroElements: filter selections over elements whose VISIBLE fields are all zero, with and
+// without hidden content (a "skip unset entries" shortcut must not look at hidden fields).
+func hiddenZeroElements(g *Gen, o *Out) {
+	exprs := []string{`Vis == 0`, `vis2 == ""`, `Vis != 5`, `vis2 is empty`, `Vis == 0 and List is empty`, `not (Vis == 1)`, `Vis == 1`, `AltSec == ""`}
+	hiddenVariants := []HiddenHolder{{}, {Secret: "s3cr3t"}, {priv: map[string]int{"a": 1}}}
+	for _, ex := range exprs {
+		first := ""
+		for j, hv := range hiddenVariants {
+			kept := ""
+			for _, cont := range []interface{}{[]HiddenHolder{{Vis: 1}, hv, {Vis: 2}}, map[string]HiddenHolder{"a": {Vis: 1}, "x": hv}, [2]HiddenHolder{hv, {Vis: 3}}} {
+				_, ans := filterCase(ex, cont)
+				if strings.HasPrefix(ans, "E") {
+					kept += "E;"
+				} else {
+					kept += fmt.Sprint(strings.Count(ans, "main.HiddenHolder (")) + ";"
+				}
+			}
+			o.meta.Cases++
+			o.count("zero-elements:" + kept)
+			if j == 0 {
+				first = kept
+			} else if kept != first {
+				o.finding(Finding{Property: "C08", Kind: "failing-input", What: fmt.Sprintf("filter %q keeps %s elements (slice;map;array) when the all-zero element has no hidden content and %s when it has", ex, first, kept),
+					Request: "filter " + hx(ex) + " " + serAny([]HiddenHolder{{Vis: 1}, hv, {Vis: 2}}) + " ( re )", Detail: ex})
+				break
+			}
+		}
+	}
+}
+
 func fragHidden(g *Gen, n int, o *Out) {
+	hiddenZeroElements(g, o)
 	optionSliceNotRetained(o)
 	hiddenThroughQuantifier(g, o)
 	hiddenInEmbedded(g, o)
+	hiddenRenameCollision(g, o)
 	tags := []string{"bexpr", "json"}
 	for i := 0; i < n; i++ {
 		tag := tags[g.r.Intn(2)]
@@ -1104,6 +1311,40 @@ func fragScalarEq(g *Gen, n int, o *Out) {
 				o.finding(Finding{Property: "C02", Kind: "failing-input", What: fmt.Sprintf("%v (%s) == %q gives %s, reference says %s", v.Interface(), t, lit, r, want), Request: lastReq(o), Detail: text})
 			}
 		}
+		// the same comparison reached through a quantifier over a one-element container: the element
+		// is still compared in its own type, and a literal that is invalid for it is still an error
+		{
+			ts := reflect.MakeSlice(reflect.SliceOf(t), 1, 1)
+			ts.Index(0).Set(v)
+			cdatum := map[string]interface{}{"xs": []interface{}{field}, "ms": map[string]interface{}{"k": field}, "ts": ts.Interface()}
+			for c := 0; c < 3; c++ {
+				lit := lits[g.r.Intn(len(lits))]
+				if c == 0 {
+					lit = []string{"seven", "abc", "1x", "--1"}[g.r.Intn(4)]
+				}
+				want := refEqual(v, lit)
+				neg := map[string]string{"T": "F", "F": "T", "E": "E"}[want]
+				for _, q := range []struct {
+					e    GExpr
+					want string
+				}{
+					{GColl{Op: "any", Path: []string{"xs"}, Mode: "default", Def: "e", Inner: GMatch{Path: []string{"e"}, Op: "eq", Raw: lit}}, want},
+					{GColl{Op: "all", Path: []string{"ms"}, Mode: "indexvalue", Idx: "k", Val: "e", Inner: GMatch{Path: []string{"e"}, Op: "eq", Raw: lit}}, want},
+					{GColl{Op: "any", Path: []string{"ts"}, Mode: "indexvalue", Idx: "i", Val: "e", Inner: GMatch{Path: []string{"e"}, Op: "eq", Raw: lit}}, want},
+					{GColl{Op: "all", Path: []string{"xs"}, Mode: "default", Def: "e", Inner: GMatch{Path: []string{"e"}, Op: "ne", Raw: lit}}, neg},
+					{GColl{Op: "any", Path: []string{"ms"}, Mode: "indexvalue", Idx: "k", Val: "e", Inner: GMatch{Path: []string{"e"}, Op: "ne", Raw: lit}}, neg},
+				} {
+					r, text, ok := evalG(g, o, nil, q.e, cdatum)
+					if !ok {
+						continue
+					}
+					o.count("eq-in-quantifier:" + q.want)
+					if norm(r) != q.want {
+						o.finding(Finding{Property: "C02", Kind: "failing-input", What: fmt.Sprintf("%v (%s) compared with %q inside a quantifier over a one-element container gives %s, reference says %s", v.Interface(), t, lit, r, q.want), Request: lastReq(o), Detail: text})
+					}
+				}
+			}
+		}
 		// non-scalars are errors
 		if i%10 == 0 {
 			for _, ns := range []interface{}{nil, []int{1}, map[string]int{"a": 1}, Inner{}, (*int)(nil)} {
@@ -1116,4 +1357,3 @@ func fragScalarEq(g *Gen, n int, o *Out) {
 		}
 	}
 }
-
